@@ -37,10 +37,15 @@ def cname(i):
 SPECIAL = {'nan': float('nan'), 'str': 'x', 'none': None, 'half': 1.5, 'ninf': float('-inf')}
 
 
+DIST_HOOK = [None]    # optional replacement of the scripted distributions by library ones (C15): f(vals, kind, node, cls, integer)
+
+
 def _dist(vals, kind, node, cls, integer=False):
     """value lists may contain special tokens (malformed-sample stream of C10/C14): see SPECIAL"""
     if vals is None:
         return None
+    if DIST_HOOK[0] is not None:
+        return DIST_HOOK[0](vals, kind, node, cls, integer)
     if integer:
         return Scripted([(SPECIAL[v] if isinstance(v, str) else int(v)) for v in vals], kind, node, cls)
     return Scripted([(SPECIAL[v] if isinstance(v, str) else fl(v)) for v in vals], kind, node, cls)
